@@ -1,12 +1,12 @@
 package main
 
 import (
-	"github.com/mattn/anko/vm"
+	"fmt"
 	"github.com/mattn/anko/core"
 	"github.com/mattn/anko/env"
-	"reflect"
-	"fmt"
+	"github.com/mattn/anko/vm"
 	"math/rand"
+	"reflect"
 	"strings"
 	"time"
 
